@@ -538,7 +538,11 @@ impl ViCut {
 							_ => {}
 						}
 						if let Some(m_mut) = cmd.motion.as_mut() {
-							m_mut.0 = count
+							m_mut.0 = count;
+							// With a count, G and gg go to that line
+							if matches!(m_mut.1, Motion::BeginningOfBuffer | Motion::EndOfBuffer) {
+								m_mut.1 = Motion::GotoLine;
+							}
 						}
 					} else {
 						return Ok(()) // it has to have a verb to be repeatable, something weird happened
